@@ -210,6 +210,9 @@ func g2(p *Prog, o *obls, fn *ssa.Function) {
 					if inc, ok := rl.Index.(*ssa.BinOp); ok && inc.X == ssa.Value(phi) {
 						isRange = true
 					}
+					if rl.Index == ssa.Value(phi) {
+						isRange = true
+					}
 				}
 			}
 			if isRange {
